@@ -3,6 +3,8 @@ usage: worker.py <file.ll> <model> <loop_bound> <queries,comma> [key=value ...]
 The verdict of every query is the SMT solver's: unsat = holds for all executions within the bounds."""
 import sys, os, time, json, resource, traceback
 sys.path.insert(0, os.path.dirname(os.path.abspath(__file__)))
+import faulthandler, signal
+faulthandler.register(signal.SIGUSR1, all_threads=True)      # kill -USR1 <pid> dumps the Python stack (debugging aid)
 import z3
 from irparse import parse_module
 import vsym
